@@ -20,6 +20,7 @@ EvInit ==
   /\ pc' = [a \in Attempts |-> "none"]
   /\ disposing' = FALSE /\ disposed' = FALSE /\ subsClosed' = FALSE
   /\ dhRuns' = 0 /\ ctxCancelled' = FALSE /\ whenDisposed' = FALSE
+  /\ qpc' = "none" /\ wIndexed' = Waiters /\ wHeld' = {} /\ wClosed' = {}
   /\ sc' = Line.scenario /\ nsc' = nsc + 1
   /\ UNCHANGED <<viol, drift>>
 
@@ -36,6 +37,14 @@ EvStage ==
                    /\ UNCHANGED vars /\ l' = l + 1
   /\ UNCHANGED <<viol, nsc, sc>>
 
+(* the queue goroutine reached a point of processSubscriptions                *)
+EvQ ==
+  /\ Line.ev = "q"
+  /\ LET M == QStep /\ qpc' = Line.point
+     IN \/ (M /\ drift' = drift)
+        \/ (~ENABLED M /\ drift' = drift \cup {<<l, "q:" \o Line.point>>} /\ UNCHANGED vars)
+  /\ UNCHANGED <<viol, nsc, sc>>
+
 Forceful == sc.how \in {"force", "disposeThenForce"}
 
 EvEnd ==
@@ -44,6 +53,10 @@ EvEnd ==
          v == UNION {
            IF x.completed THEN {} ELSE {<<l, "not-completed">>},
            IF ~x.completed \/ x.open = <<>> THEN {} ELSE {<<l, "waiter-open">>},
+           \* CollectedWaitersReleased on the logged values: the waiters matched by
+           \* the in-flight transition (out of the indexes when the disposal landed)
+           IF ~x.completed \/ ~QueueQuiet \/ x.openMatched = <<>> THEN {}
+           ELSE {<<l, "collected-waiter-open">>},
            IF ~x.completed \/ x.ctxAlive = <<>> THEN {} ELSE {<<l, "statectx-alive">>},
            IF ~x.completed \/ ~x.machCtxAlive THEN {} ELSE {<<l, "machine-ctx-alive">>},
            IF ~x.completed \/ \A i \in 1..Len(x.disposeRuns) : x.disposeRuns[i] = 1
@@ -58,7 +71,9 @@ EvEnd ==
                i \in {k \in 1..Len(x.post) : x.post[k].outcome = "ok" /\ ~x.post[k].neutral}}}
          d == UNION {
            IF x.completed = whenDisposed THEN {} ELSE {<<l, "whenDisposed">>},
-           IF ~x.completed \/ (subsClosed /\ ctxCancelled /\ dhRuns = 1) THEN {} ELSE {<<l, "end-state">>}}
+           IF ~x.completed \/ (subsClosed /\ ctxCancelled /\ dhRuns = 1) THEN {} ELSE {<<l, "end-state">>},
+           IF ~x.completed \/ ~QueueQuiet \/ ((x.openMatched = <<>>) = (Matched \subseteq wClosed)) THEN {}
+           ELSE {<<l, "matched-waiters">>}}
      IN viol' = viol \cup v /\ drift' = drift \cup d
   /\ UNCHANGED <<vars, nsc, sc>>
 
@@ -71,8 +86,9 @@ TraceNext ==
   \/ (l <= Len(Trace) /\ EvInit /\ l' = l + 1)
   \/ (l <= Len(Trace) /\ EvStage)
   \/ (l <= Len(Trace) /\ EvEnd /\ l' = l + 1)
+  \/ (l <= Len(Trace) /\ EvQ /\ l' = l + 1)
   \/ (Done /\ l' = l + 1)
 
 TraceSpec == TraceInit /\ [][TraceNext]_tvars
-TraceView == <<l, pc>>
+TraceView == <<l, pc, qpc>>
 =============================================================================
